@@ -335,6 +335,9 @@ func indexScope(p *Program, fn *ssa.Function) bool {
 			return true
 		}
 	}
+	if _, fmtFn, _ := printfFormatter(p); fn == fmtFn {
+		return true
+	}
 	return false
 }
 
@@ -382,7 +385,11 @@ func indexGuards(c *Ctx, rule string) {
 				}
 			}
 			why := ""
-			if ex, ok := indexExceptions[shortName(fn)+" "+xs+"["+es+"]"]; ok {
+			exName := shortName(fn)
+			if _, fmtFn, _ := printfFormatter(p); fn == fmtFn {
+				exName = "lang.nativePrintf" // the scanner split off printf keeps printf's frozen exceptions
+			}
+			if ex, ok := indexExceptions[exName+" "+xs+"["+es+"]"]; ok {
 				why = "exception: " + ex
 			}
 			if why == "" {
